@@ -4,6 +4,7 @@ Implementation side: histories of API calls run by harness/ops_c07.py with the d
 graph, the repeat check and real threads.  Model side: Model/Store.v (ownership / footprint model) evaluated in
 Coq on the same resolved histories (Corr/C07.v)."""
 import json
+import os
 import random
 import time
 
@@ -304,14 +305,14 @@ def gen_history(rng, hid, tier, n_ops=None, style=None):
     weights = {"sim": [("apply", 30), ("applicable", 10), ("mk_op", 10), ("triplet", 8), ("plan", 6), ("export_traj", 4),
                        ("ground", 3), ("copy", 4), ("serialize", 6), ("typed_serialize", 2), ("state_objects", 2),
                        ("state_eq", 2), ("str_op", 4), ("str_action", 5), ("export", 6), ("export_problem", 4),
-                       ("str_domain", 2), ("parse_problem", 3)],
+                       ("str_domain", 2), ("parse_problem", 3), ("parse_traj", 5), ("convert_plan", 4)],
                "domains": [("parse_domain", 14), ("new_domain", 10), ("combine", 14), ("shallow_copy", 8), ("export", 16),
                            ("str_domain", 4), ("str_action", 6), ("apply", 10), ("mk_op", 5), ("triplet", 4),
                            ("export_problem", 3)],
                "mixed": [("apply", 20), ("applicable", 6), ("mk_op", 8), ("triplet", 6), ("plan", 5), ("export_traj", 3),
                          ("copy", 3), ("serialize", 5), ("str_action", 4), ("export", 8), ("export_problem", 3),
                          ("parse_domain", 6), ("new_domain", 5), ("combine", 8), ("shallow_copy", 4),
-                         ("parse_problem", 3), ("str_op", 3), ("ground", 2), ("state_eq", 2)]}[style]
+                         ("parse_problem", 3), ("str_op", 3), ("ground", 2), ("state_eq", 2), ("parse_traj", 3), ("convert_plan", 3)]}[style]
     names = [n for n, w in weights for _ in range(w)]
     while len(ops) < n_ops:
         k = rng.choice(names)
@@ -338,6 +339,27 @@ def gen_history(rng, hid, tier, n_ops=None, style=None):
             ops.append({"k": "plan", "dom": 0, "objs": rng.randrange(16), "calls": calls, "allow": rng.random() < 0.3})
         elif k == "export_traj":
             ops.append({"k": k, "plan": rng.randrange(4)})
+        elif k == "convert_plan":
+            # a sequential plan over actions that have an agent (objects of type a play the agents)
+            with_agent = [i for i, a in enumerate(main.actions) if any(t == "a" for _, t in a.params)] or [0]
+            calls = []
+            for _ in range(rng.randint(3, 8)):
+                a = rng.choice(with_agent)
+                act = main.actions[a]
+                args = [rng.choice(objs_of(t)) for _, t in act.params]
+                calls.append({"ai": a, "args": args, "call": "(%s %s)" % (act.name, " ".join(args))})
+            ops.append({"k": k, "dom": 0, "objs": rng.randrange(16), "calls": calls, "agents": objs_of("a"),
+                        "validate": rng.random() < 0.7, "filter": rng.random() < 0.8})
+        elif k == "parse_traj":
+            if not any(o["k"] == "plan" for o in ops):       # make sure there is a trajectory to read back
+                calls = []
+                for _ in range(rng.randint(2, 3)):
+                    a = rng.randrange(len(main.actions))
+                    act = main.actions[a]
+                    args = [rng.choice(objs_of(t)) for _, t in act.params]
+                    calls.append({"ai": a, "args": args, "call": "(%s %s)" % (act.name, " ".join(args))})
+                ops.append({"k": "plan", "dom": 0, "objs": rng.randrange(16), "calls": calls, "allow": rng.random() < 0.3})
+            ops.append({"k": k, "plan": rng.randrange(4), "noprob": rng.random() < 0.25})
         elif k == "state_eq":
             ops.append({"k": k, "st": rng.randrange(16), "st2": rng.randrange(16)})
         elif k in ("ground", "str_op"):
@@ -451,6 +473,27 @@ def c_op(step, job, keys, plans=None):
             return ["ONop"]
         pj, base, n = plans[op["plan"]]
         return ["(OReadState %d)" % pj] + ["(OReadState %d)" % (base + i) for i in range(n)]
+    if k == "convert_plan":
+        # reads the schema and the problem (its simulation runs on temporaries: operators and successor states nobody keeps)
+        return ["(OReadDomain %d)" % op["dom"], "(OReadState %d)" % op["objs"]]
+    if k == "parse_traj":
+        # export (reads every state of the plan), then one ONewState per State the parser reads from the text and one
+        # OCopy per `previous_state = next_state.copy()` whose result is kept (all but the last)
+        if failed:
+            return ["ONop"]
+        pj, base, n = plans[op["plan"]]
+        out = ["(OReadState %d)" % pj] + ["(OReadState %d)" % (base + i) for i in range(n)]
+        ks = lambda names: clist(str(keys.setdefault(x, len(keys))) for x in names)
+        idx, fl = res["base_s"], res["fluents"]
+        out.append("(ONewState %d %d %s)" % (res["dom"], res["pj"], ks(fl[0])))
+        idx += 1
+        for i in range(res["n"]):
+            out.append("(ONewState %d %d %s)" % (res["dom"], res["pj"], ks(fl[i + 1])))
+            if i < res["n"] - 1:
+                out.append("(OCopy %d)" % idx)
+                idx += 1
+            idx += 1
+        return out
     raise ValueError(k)
 
 
@@ -564,8 +607,20 @@ def gen_thread_job(rng, tid, tier):
                 ops.append({"k": "str_action", "dom": 0, "act": act.name, "ai": a})
             elif r < 0.88:
                 ops.append({"k": "export", "dom": 0})
-            elif r < 0.94:
+            elif r < 0.91:
                 ops.append({"k": "str_op", "op": rng.randrange(8)})
+            elif r < 0.94:
+                # a plan of the thread's own, its trajectory written and read back, a sequential plan regrouped
+                calls = []
+                for _ in range(rng.randint(2, 3)):
+                    a2 = rng.randrange(len(main.actions))
+                    act2 = main.actions[a2]
+                    args2 = [rng.choice(objs_of(ty)) for _, ty in act2.params]
+                    calls.append({"ai": a2, "args": args2, "call": "(%s %s)" % (act2.name, " ".join(args2))})
+                ops.append({"k": "plan", "dom": 0, "objs": 0, "calls": calls, "allow": rng.random() < 0.5})
+                ops.append({"k": "parse_traj", "plan": rng.randrange(4), "noprob": rng.random() < 0.25})
+                ops.append({"k": "convert_plan", "dom": 0, "objs": 0, "calls": calls, "agents": objs_of("a"),
+                            "validate": rng.random() < 0.7, "filter": True})
             else:
                 ops.append({"k": "applicable", "op": rng.randrange(8), "st": rng.randrange(16)})
         threads.append(ops)
@@ -736,8 +791,8 @@ def fixture_jobs(rng, tier, seed=0):
         plan = calls[:k]
         ops = [{"k": "parse_domain", "src": 0}, {"k": "parse_problem", "src": 0, "dom": 0},
                {"k": "plan", "dom": 0, "objs": 0, "calls": plan, "allow": False},
-               {"k": "export_traj", "plan": 0}, {"k": "export", "dom": 0}, {"k": "export_problem", "st": 0},
-               {"k": "str_domain", "dom": 0}]
+               {"k": "export_traj", "plan": 0}, {"k": "parse_traj", "plan": 0, "noprob": False},
+               {"k": "export", "dom": 0}, {"k": "export_problem", "st": 0}, {"k": "str_domain", "dom": 0}]
         # the plan's first operators again, on the initial state and on later states (also out of order)
         for j in range(min(3, k)):
             c = plan[j]
@@ -799,6 +854,11 @@ def run(args):
     findings = {f["id"]: f for f in load_findings(PROP)}
     # a repair that is recorded as fixed is part of the model's configuration; an open finding is reproduced by it
     cfg = {d: findings.get(d, {}).get("status") != "open" for d in DEFECTS}
+    # scratch runs against a tree that carries a PROPOSED repair (VERIF_REPO=<worktree> VERIF_C07_ASSUME_FIXED=D17):
+    # the model is configured as if the finding were recorded as fixed; the registered check never sets this
+    for d in os.environ.get("VERIF_C07_ASSUME_FIXED", "").split(","):
+        if d in cfg:
+            cfg[d] = True
     def oracle_bad(r):
         return (("steps" in r and dirty(r))
                 or ("n_runs" in r and (r["n_diffs"] or r["n_shared_writes"] or r["domain_changed_runs"] or r["module_leak"]))
@@ -867,6 +927,10 @@ def run(args):
     timing["impl_scheduler_s"] = round(time.time() - t0, 1)
 
     cases, kinds, nsteps, raised, refused = [], {}, {}, 0, 0
+    rep_calls, rep_init, traj_ok, traj_raised, indep_states, indep_rep = 0, 0, 0, 0, 0, 0
+
+    def repeats(args):
+        return len(set(args)) < len(args)
     for job, res in zip(jobs, results):
         if "steps" not in res:
             p = write_replay(PROP, "driver_failed_%s" % job["id"], {"kind": "correspondence", "why": "history driver failed", "input": {"job": public(job)}, "result": res})
@@ -880,6 +944,15 @@ def run(args):
             kinds[s["op"]["k"]] = kinds.get(s["op"]["k"], 0) + 1
             raised += 1 if "raised" in s["res"] else 0
             refused += 1 if s["res"].get("refused") else 0
+            if s["op"]["k"] in ("mk_op", "triplet"):
+                rep_calls += 1 if repeats(s["op"].get("args", [])) else 0
+            if s["op"]["k"] == "plan":
+                rep_calls += sum(1 for c in s["op"]["calls"] if repeats(c["args"]))
+            if s["op"]["k"] == "parse_traj":
+                traj_ok, traj_raised = traj_ok + ("raised" not in s["res"]), traj_raised + ("raised" in s["res"])
+        rep_init += 1 if any(re.search(r"\(= \((\w+) (\w+) \2\)", p) for p in job["probs"]) else 0
+        indep_states += (res.get("indep_world") or {}).get("states", 0)
+        indep_rep += 1 if job.get("indep") and any(repeats(c["args"]) for c in job["indep"]["calls"]) else 0
         nsteps[len(executed)] = nsteps.get(len(executed), 0) + 1
         has_ref = any(s["res"].get("refused") for s in executed)
         n_state_ops = sum(1 for s in executed if s["op"]["k"] in ("apply", "triplet", "combine", "copy"))
@@ -935,6 +1008,13 @@ def run(args):
     cov["input_distribution"] = {"histories": len(jobs), "thread_jobs": len(tjobs), "ops_by_kind": kinds,
                                  "history_length_executed": {str(k): v for k, v in sorted(nsteps.items())},
                                  "calls_raised": raised, "steps_refused": refused,
+                                 "operator_calls_repeating_an_object": rep_calls,
+                                 "histories_with_an_initial_fluent_repeating_an_object": rep_init,
+                                 "trajectories_read_back": traj_ok, "trajectory_read_back_raised": traj_raised,
+                                 "independent_worlds": sum(1 for j in jobs if j.get("indep")),
+                                 "independent_world_states_rechecked_after_every_call": indep_states,
+                                 "independent_worlds_whose_plan_repeats_an_object": indep_rep,
+                                 "process_wide_static_objects_digested": (results[0] or {}).get("n_statics") if results else None,
                                  "styles": {s: sum(1 for j in jobs if j.get("style") == s) for s in ("sim", "domains", "mixed", "witness", "fixture")},
                                  "thread_counts": {str(n): sum(1 for j in tjobs if len(j["threads"]) == n) for n in (2, 3, 4)},
                                  "thread_rounds": sum(j["rounds"] for j in tjobs),
@@ -951,12 +1031,19 @@ def run(args):
     cov["exhaustive"] = False
     cov["rule"] = ("histories of 3-12 API calls (parse domain/problem, Domain(), combine agent domains, Domain.shallow_copy, Operator, ground, "
                    "is_applicable, apply x 4 flag combinations, re-apply to earlier/later states, State.copy, State ==, serialize, str of "
-                   "operator/action/domain/problem, domain and problem export, create_single_triplet, parse_plan of 2-4 calls, trajectory export) "
+                   "operator/action/domain/problem, domain and problem export, create_single_triplet, parse_plan of 2-4 calls, trajectory export, "
+                   "trajectory written to a file and read back by TrajectoryParser with / without the problem) "
                    "over generated typed/untyped domains with numeric fluents, conditional effects, forall effects and forall preconditions, a strict "
-                   "subtype (c - a) and problems with numeric goals; plus one long history per shipped (domain, problem, plan) of "
-                   "tests/exporters_tests with the shipped agent domains of tests/multi_agent_tests.  After EVERY call digests of DEFAULT_TYPES, all "
-                   "domains and ALL live states are compared (oracle), the sharing graph of mutable objects between roots is compared with the "
-                   "model's, every query is repeated at the end.  Threads: N=2-4 real threads on one shared domain (switch interval 1e-6) against "
+                   "subtype (c - a), a binary predicate e and a binary function k over ONE type - so initial facts / fluents and action calls "
+                   "repeat an object: (= (k a1 a1) 0), (act0 a1 a1) - and problems with numeric goals; plus one long history per shipped "
+                   "(domain, problem, plan) of tests/exporters_tests with the shipped agent domains of tests/multi_agent_tests.  BEFORE every "
+                   "history an INDEPENDENT domain + problem (same type / predicate / function names, other meaning: c - b, binary f) is parsed "
+                   "and simulated for 3-4 calls.  After EVERY call digests of the module root (DEFAULT_TYPES + every process-wide static object "
+                   "of the loaded pddl_plus_parser modules: module globals, class attributes, __defaults__ / __kwdefaults__ of functions and "
+                   "methods), of all domains, of ALL live states and of the independent world are compared (oracle), the independent world's "
+                   "answers (exports, serialisations, applicability, a repeated transition) are re-asked and compared, the sharing graph of "
+                   "mutable objects between roots is compared with the model's (no root may share with the independent world), every query "
+                   "is repeated at the end.  Threads: N=2-4 real threads on one shared domain (switch interval 1e-6) against "
                    "sequential runs; deterministic scheduler jobs (2-3 threads of 4-8 calls, logging proxies on the shared domain's containers): "
                    "all one-preemption schedules (per thread order, capped as reported) + seeded random schedules, results against solo runs, "
                    "shared read/write footprint of every call against the model.  Non-trivial: >= 3 executed calls including a "
@@ -969,7 +1056,8 @@ def run(args):
                      [{"scheduler_threads": c["input"]["job"]["threads"], "observed": c["input"]["observed"]} for c in sc_cases[:1]]
     cov["explanation"] = ("theorems C07_* (Props/C07.v) proved for all histories on the store model; model tied to the code by the "
                           "per-step comparison of changed values and sharing pairs on the cases above")
-    rep.assumptions = ["values are abstract in the model (cells carry stamps); value-dependent branch outcomes (refused?) are inputs of the model taken from the run",
+    rep.assumptions = ["process-wide static objects are one read-only cell (OMod, 1) of the model; the independent world parsed before the history has no cells in the model: what the oracle sees of it (changed digest / changed answer / shared object) crosses as part of the repeat verdict",
+                       "values are abstract in the model (cells carry stamps); value-dependent branch outcomes (refused?) are inputs of the model taken from the run",
                        "objects no operation writes after construction (PDDLType, Predicate/GroundedPredicate, PDDLObject and their signature dicts) are values, not cells; the digest oracle still covers them",
                        "CPython scheduler / GIL / byte-code atomicity are outside the model; real threads and multi-preemption schedules are sampled; the one-preemption schedule space of each scheduler job is enumerated at the granularity of method calls on the proxied containers (Domain.types/actions/predicates/functions/constants/requirements, Action.signature and effect sets)",
                        "a Problem's references into its own Domain (Problem.domain; goal-tree leaves that are the domain's lifted zero-arity PDDLFunction objects) are not counted as sharing between values",
